@@ -103,3 +103,10 @@ func verifLemmaDenorm(c string, rootBase string) string {
 	d := denormalizeRef(&ref, rootBase, "")
 	return d.String()
 }
+
+// idempotence of reference normalisation (C04): the string pushed on the stack of parent refs and the
+// string isCircular looks for are computed by two different expressions and must coincide
+func verifLemmaNormIdem(s string, base string) (string, string) {
+	r := MustCreateRef(normalizeURI(s, base))
+	return r.String(), normalizeURI(r.String(), base)
+}
